@@ -71,6 +71,8 @@ def run(ctx) -> None:
   ctx.rule('R3', 'wrapper-typed optional scalars: presence decided by HasField, never by truthiness of .value', 1)
   ctx.rule('R4', 'enum maps injective and total; trial-state functions cover every member', 5)
   ctx.rule('R5', 'no mutation of a message after it was copied into its container', 1)
+  ctx.import_rules('C10', {'R6'}, 'R7', 'metadata values: str, then Any (stored as is), then other messages packed once')
+  ctx.import_rules('C16', {'R8'}, 'R6', 'conditional spaces survive conversion only if every subspace owns its own config objects')
   mi = ctx.index.module_of_file(PC)
   pairs: List[Tuple[ClassInfo, FuncInfo, FuncInfo]] = []
   for ci in mi.classes.values():
